@@ -77,6 +77,21 @@ func (c *Ctx) Interp() *sym.Interp {
 func (c *Ctx) Fn(rel, name string) *ssa.Function {
 	f := c.P.Func(rel, name)
 	if f == nil || f.Blocks == nil {
+		// the helper may have been turned into a method of some type of the same package (or back): unexported
+		// helpers are found by name alone when exactly one function of the package carries it
+		if len(name) > 0 && name[0] >= 'a' && name[0] <= 'z' {
+			var cands []*ssa.Function
+			for _, g := range c.P.AllFuncs() {
+				if g.Name() == name && g.Blocks != nil && g.Pkg != nil && c.P.Rel(g.Pkg.Pkg) == rel && g.Parent() == nil && g.Synthetic == "" {
+					cands = append(cands, g)
+				}
+			}
+			if len(cands) == 1 {
+				return cands[0]
+			}
+		}
+	}
+	if f == nil || f.Blocks == nil {
 		c.R.Anchor(fmt.Sprintf("func %s.%s", rel, name))
 		return nil
 	}
@@ -86,6 +101,18 @@ func (c *Ctx) Fn(rel, name string) *ssa.Function {
 // Method resolves a method or reports an unresolved anchor.
 func (c *Ctx) Method(rel, typ, name string, ptr bool) *ssa.Function {
 	f := c.P.Method(rel, typ, name, ptr)
+	if (f == nil || f.Blocks == nil) && len(name) > 0 && name[0] >= 'a' && name[0] <= 'z' {
+		// an unexported method may have become a plain function or moved to another receiver
+		var cands []*ssa.Function
+		for _, g := range c.P.AllFuncs() {
+			if g.Name() == name && g.Blocks != nil && g.Pkg != nil && c.P.Rel(g.Pkg.Pkg) == rel && g.Parent() == nil && g.Synthetic == "" {
+				cands = append(cands, g)
+			}
+		}
+		if len(cands) == 1 {
+			return cands[0]
+		}
+	}
 	if f == nil || f.Blocks == nil {
 		c.R.Anchor(fmt.Sprintf("method %s.%s.%s", rel, typ, name))
 		return nil
